@@ -241,18 +241,27 @@ theorem not_mem_map_hexChar (ds : List (Nat × Bool)) (hd : ∀ d ∈ ds, d.1 < 
 
 /-! ### The decoding theorem -/
 
-/-- The rendering of a well-spelled list that does not begin with a literal LF does not begin
-    with a LF character. -/
-theorem render_head_ne_lf (ps : List Piece) (h : ps.head? ≠ some (.lit '\n')) :
-    ∀ r, renderPieces ps ≠ '\n' :: r := by
+/-- `result.push`es in front of whatever the rest of the loop returns. -/
+def prependOk (v : Str) : Except ContentErr Str → Except ContentErr Str
+  | .ok s => .ok (v ++ s)
+  | .error e => .error e
+
+theorem consOk_prependOk (c : Char) (v : Str) (r : Except ContentErr Str) :
+    consOk c (prependOk v r) = prependOk (c :: v) r := by
+  cases r <;> rfl
+
+/-- The rendering of a list that does not begin with a literal LF, followed by a text that does
+    not begin with LF, does not begin with a LF character. -/
+theorem render_head_ne_lf (ps : List Piece) (suffix : Str) (h : ps.head? ≠ some (.lit '\n'))
+    (hs : ∀ r, suffix ≠ '\n' :: r) : ∀ r, renderPieces ps ++ suffix ≠ '\n' :: r := by
   intro r
   match ps with
-  | [] => simp [renderPieces]
+  | [] => simpa [renderPieces] using hs r
   | p :: rest =>
     simp only [renderPieces, List.flatMap_cons]
     cases p with
     | lit c =>
-      simp only [renderPiece, List.singleton_append, ne_eq, List.cons.injEq, not_and]
+      simp only [renderPiece, List.singleton_append, List.cons_append, ne_eq, List.cons.injEq, not_and]
       intro hc; subst hc; simp at h
     | named n => simp [renderPiece]
     | dec ds => simp [renderPiece]
@@ -266,14 +275,25 @@ theorem skipLf_of_ne (s : Str) (h : ∀ r, s ≠ '\n' :: r) : skipLf s = s := by
   · rename_i r; exact absurd rfl (h r)
   · rfl
 
-/-- C02_content, with the byte position generalised. -/
-theorem parse_pieces (attr : Bool) (base : Nat) (ps : List Piece) :
-    ∀ pos, WellSpelled ps → parseContentGo attr base pos (renderPieces ps) = .ok (valueOf attr ps) := by
+theorem valueOf_cons {attr : Bool} {p : Piece} {c : Char} (rest : List Piece) (h : pieceValue attr p = some c) :
+    valueOf attr (p :: rest) = c :: valueOf attr rest := by
+  simp [valueOf, h]
+
+/-- Decoding a well-spelled piece list followed by any text `suffix` (not starting with LF):
+    the pieces' values, then whatever the loop makes of the suffix at the position reached. -/
+theorem parse_pieces_suffix (attr : Bool) (base : Nat) (suffix : Str) (hsuf : ∀ r, suffix ≠ '\n' :: r)
+    (ps : List Piece) :
+    ∀ pos, WellSpelled ps → ∃ pos', parseContentGo attr base pos (renderPieces ps ++ suffix) =
+      prependOk (valueOf attr ps) (parseContentGo attr base pos' suffix) := by
   induction ps with
-  | nil => intro pos _; simp [renderPieces, valueOf, parseGo_nil]
+  | nil =>
+    intro pos _
+    refine ⟨pos, ?_⟩
+    simp only [renderPieces, List.flatMap_nil, List.nil_append, valueOf, List.filterMap_nil]
+    cases parseContentGo attr base pos suffix <;> rfl
   | cons p rest ih =>
     intro pos hw
-    simp only [renderPieces, List.flatMap_cons] at ih ⊢
+    simp only [renderPieces, List.flatMap_cons, List.append_assoc] at ih ⊢
     cases p with
     | lit c =>
       obtain ⟨⟨h1, h2⟩, hr⟩ := hw
@@ -281,9 +301,11 @@ theorem parse_pieces (attr : Bool) (base : Nat) (ps : List Piece) :
       by_cases hws : attr = true ∧ (c = '\t' ∨ c = '\n')
       · obtain ⟨ha, hc⟩ := hws
         subst ha
-        rw [parseGo_attr_ws base pos c _ hc, ih _ hr]
+        obtain ⟨pos', hih⟩ := ih (pos + utf8Len c) hr
+        refine ⟨pos', ?_⟩
+        rw [parseGo_attr_ws base pos c _ hc, hih, consOk_prependOk]
         have : (c == '\t' || c == '\n') = true := by rcases hc with h | h <;> subst h <;> decide
-        simp [valueOf, pieceValue, this, consOk]
+        rw [valueOf_cons rest (c := ' ') (by simp [pieceValue, this])]
       · have hplain : plainFor attr c = true := by
           simp only [plainFor, Bool.and_eq_true, bne_iff_ne, ne_eq, Bool.not_eq_true', Bool.and_eq_false_iff,
             Bool.or_eq_false_iff, beq_eq_false_iff_ne]
@@ -295,7 +317,9 @@ theorem parse_pieces (attr : Bool) (base : Nat) (ps : List Piece) :
             · intro h; exact this (Or.inl h)
             · intro h; exact this (Or.inr h)
           · left; simpa using ha
-        rw [parseGo_plain attr base pos c _ hplain, ih _ hr]
+        obtain ⟨pos', hih⟩ := ih (pos + utf8Len c) hr
+        refine ⟨pos', ?_⟩
+        rw [parseGo_plain attr base pos c _ hplain, hih, consOk_prependOk]
         have hv : (attr && (c == '\t' || c == '\n')) = false := by
           cases attr with
           | false => rfl
@@ -303,7 +327,7 @@ theorem parse_pieces (attr : Bool) (base : Nat) (ps : List Piece) :
             simp only [Bool.true_and, Bool.or_eq_false_iff, beq_eq_false_iff_ne]
             have := fun hc => hws ⟨rfl, hc⟩
             exact ⟨fun h => this (Or.inl h), fun h => this (Or.inr h)⟩
-        simp [valueOf, pieceValue, hv, consOk]
+        rw [valueOf_cons rest (c := c) (by simp [pieceValue, hv])]
     | named name =>
       obtain ⟨⟨hsemi, hsharp, hsome⟩, hr⟩ := hw
       obtain ⟨c, hc⟩ := Option.isSome_iff_exists.mp hsome
@@ -312,10 +336,12 @@ theorem parse_pieces (attr : Bool) (base : Nat) (ps : List Piece) :
         split
         · rename_i num; exact absurd rfl (hsharp num)
         · exact hc
-      have : renderPiece (.named name) ++ List.flatMap renderPiece rest =
-          '&' :: (name ++ ';' :: List.flatMap renderPiece rest) := by simp [renderPiece]
-      rw [this, parseGo_entity attr base pos c name _ hsemi hdec, ih _ hr]
-      simp [valueOf, pieceValue, hc, consOk]
+      have : renderPiece (.named name) ++ (List.flatMap renderPiece rest ++ suffix) =
+          '&' :: (name ++ ';' :: (List.flatMap renderPiece rest ++ suffix)) := by simp [renderPiece]
+      obtain ⟨pos', hih⟩ := ih (pos + 1 + strLen name + 1) hr
+      refine ⟨pos', ?_⟩
+      rw [this, parseGo_entity attr base pos c name _ hsemi hdec, hih, consOk_prependOk,
+        valueOf_cons rest (c := c) (by simp [pieceValue, hc])]
     | dec ds =>
       obtain ⟨⟨hne, hd, hsome⟩, hr⟩ := hw
       obtain ⟨c, hc⟩ := Option.isSome_iff_exists.mp hsome
@@ -323,10 +349,13 @@ theorem parse_pieces (attr : Bool) (base : Nat) (ps : List Piece) :
       have hsemi : ';' ∉ '#' :: ds.map decChar := by
         simp only [List.mem_cons, not_or]
         exact ⟨by decide, not_mem_map_decChar ds hd⟩
-      have : renderPiece (.dec ds) ++ List.flatMap renderPiece rest =
-          '&' :: (('#' :: ds.map decChar) ++ ';' :: List.flatMap renderPiece rest) := by simp [renderPiece]
-      rw [this, parseGo_entity attr base pos c _ _ hsemi hdec, ih _ hr]
-      simp [valueOf, pieceValue, hc, consOk]
+      have : renderPiece (.dec ds) ++ (List.flatMap renderPiece rest ++ suffix) =
+          '&' :: (('#' :: ds.map decChar) ++ ';' :: (List.flatMap renderPiece rest ++ suffix)) := by
+        simp [renderPiece]
+      obtain ⟨pos', hih⟩ := ih (pos + 1 + strLen ('#' :: ds.map decChar) + 1) hr
+      refine ⟨pos', ?_⟩
+      rw [this, parseGo_entity attr base pos c _ _ hsemi hdec, hih, consOk_prependOk,
+        valueOf_cons rest (c := c) (by simp [pieceValue, hc])]
     | hex ds =>
       obtain ⟨⟨hne, hd, hsome⟩, hr⟩ := hw
       obtain ⟨c, hc⟩ := Option.isSome_iff_exists.mp hsome
@@ -335,24 +364,76 @@ theorem parse_pieces (attr : Bool) (base : Nat) (ps : List Piece) :
       have hsemi : ';' ∉ '#' :: 'x' :: ds.map hexChar := by
         simp only [List.mem_cons, not_or]
         exact ⟨by decide, by decide, not_mem_map_hexChar ds hd⟩
-      have : renderPiece (.hex ds) ++ List.flatMap renderPiece rest =
-          '&' :: (('#' :: 'x' :: ds.map hexChar) ++ ';' :: List.flatMap renderPiece rest) := by
+      have : renderPiece (.hex ds) ++ (List.flatMap renderPiece rest ++ suffix) =
+          '&' :: (('#' :: 'x' :: ds.map hexChar) ++ ';' :: (List.flatMap renderPiece rest ++ suffix)) := by
         simp [renderPiece]
-      rw [this, parseGo_entity attr base pos c _ _ hsemi hdec, ih _ hr]
-      simp [valueOf, pieceValue, hc, consOk]
+      obtain ⟨pos', hih⟩ := ih (pos + 1 + strLen ('#' :: 'x' :: ds.map hexChar) + 1) hr
+      refine ⟨pos', ?_⟩
+      rw [this, parseGo_entity attr base pos c _ _ hsemi hdec, hih, consOk_prependOk,
+        valueOf_cons rest (c := c) (by simp [pieceValue, hc])]
     | cr =>
       obtain ⟨hhead, hr⟩ := hw
       simp only [renderPiece, List.singleton_append]
-      have hs := skipLf_of_ne _ (render_head_ne_lf rest hhead)
+      have hs := skipLf_of_ne _ (render_head_ne_lf rest suffix hhead hsuf)
       simp only [renderPieces] at hs
-      rw [parseGo_cr, hs, ih _ hr]
-      simp [valueOf, pieceValue, consOk]
+      obtain ⟨pos', hih⟩ := ih (pos + 1 + ((List.flatMap renderPiece rest ++ suffix).length -
+        (List.flatMap renderPiece rest ++ suffix).length)) hr
+      refine ⟨pos', ?_⟩
+      rw [parseGo_cr, hs, hih, consOk_prependOk, valueOf_cons rest (c := if attr then ' ' else '\n') (by simp [pieceValue])]
     | crlf =>
       obtain ⟨_, hr⟩ := hw
       simp only [renderPiece, List.cons_append, List.nil_append]
       rw [parseGo_cr]
       simp only [skipLf]
-      rw [ih _ hr]
-      simp [valueOf, pieceValue, consOk]
+      obtain ⟨pos', hih⟩ := ih _ hr
+      refine ⟨pos', ?_⟩
+      rw [hih, consOk_prependOk, valueOf_cons rest (c := if attr then ' ' else '\n') (by simp [pieceValue])]
+
+/-- C02_content, with the byte position generalised. -/
+theorem parse_pieces (attr : Bool) (base : Nat) (ps : List Piece) (pos : Nat) (hw : WellSpelled ps) :
+    parseContentGo attr base pos (renderPieces ps) = .ok (valueOf attr ps) := by
+  obtain ⟨pos', h⟩ := parse_pieces_suffix attr base [] (by simp) ps pos hw
+  simp only [List.append_nil, parseGo_nil, prependOk] at h
+  exact h
+
+/-- A reference that does not decode, anywhere after well-spelled content, is an `InvalidEntity`. -/
+theorem parse_pieces_then_invalid (attr : Bool) (base pos : Nat) (ps : List Piece) (hw : WellSpelled ps)
+    (ent rest : Str) (hsemi : ';' ∉ ent) (hdec : decodeEntity ent = none) :
+    ∃ a b, parseContentGo attr base pos (renderPieces ps ++ '&' :: (ent ++ ';' :: rest)) =
+      .error (.invalid (entityErrText ent) a b) := by
+  obtain ⟨pos', h⟩ := parse_pieces_suffix attr base ('&' :: (ent ++ ';' :: rest)) (by simp) ps pos hw
+  refine ⟨base + pos', base + (pos' + 1 + strLen ent + 1), ?_⟩
+  rw [h, parseContentGo.eq_def]
+  have h1 : ('&' : Char) ≠ '\r' := by decide
+  simp only [h1, if_false, if_true]
+  have hs : splitSemi (ent ++ ';' :: rest) = some (ent, rest) := splitSemi_append ent rest hsemi
+  split
+  · rename_i hnone; rw [hs] at hnone; cases hnone
+  · rename_i ent' rest' hsome
+    rw [hs] at hsome
+    cases hsome
+    simp [hdec, prependOk]
+
+theorem splitSemi_none {s : Str} (h : ';' ∉ s) : splitSemi s = none := by
+  induction s with
+  | nil => rfl
+  | cons c cs ih =>
+    have hc : c ≠ ';' := by intro h'; apply h; simp [h']
+    have hcs : ';' ∉ cs := by intro h'; apply h; simp [h']
+    simp [splitSemi, hc, ih hcs]
+
+/-- A `&` that is never closed by `;`, anywhere after well-spelled content, is an `UnclosedEntity`. -/
+theorem parse_pieces_then_unclosed (attr : Bool) (base pos : Nat) (ps : List Piece) (hw : WellSpelled ps)
+    (rest : Str) (hsemi : ';' ∉ rest) :
+    ∃ a, parseContentGo attr base pos (renderPieces ps ++ '&' :: rest) = .error (.unclosed rest a) := by
+  obtain ⟨pos', h⟩ := parse_pieces_suffix attr base ('&' :: rest) (by simp) ps pos hw
+  refine ⟨base + pos', ?_⟩
+  rw [h, parseContentGo.eq_def]
+  have h1 : ('&' : Char) ≠ '\r' := by decide
+  simp only [h1, if_false, if_true]
+  split
+  · simp [prependOk]
+  · rename_i ent' rest' hsome
+    rw [splitSemi_none hsemi] at hsome; cases hsome
 
 end XotModel
